@@ -370,7 +370,78 @@ func init() {
 	})
 }
 
+// c17Deep: a deep tree of bare commands (no options or arguments, so that an application object can be used twice); help is
+// requested for two different commands in turn on the same object; only the usage path is judged on this family
+func c17Deep(c *core.Ctx) {
+	r := c.R
+	type dn struct {
+		name string
+		kids []*dn
+		par  *dn
+	}
+	var all []*dn
+	var gen func(par *dn, name string, depth int) *dn
+	gen = func(par *dn, name string, depth int) *dn {
+		n := &dn{name: name, par: par}
+		all = append(all, n)
+		if depth > 0 {
+			for k := 0; k < 2+r.Intn(2); k++ {
+				n.kids = append(n.kids, gen(n, fmt.Sprintf("%s%c", []string{"lvl", "grp", "sub", "op", "leaf", "x"}[5-depth%6], 'a'+k), depth-1))
+			}
+		}
+		return n
+	}
+	root := gen(nil, "app", 4+r.Intn(2))
+	path := func(n *dn) []string {
+		var p []string
+		for x := n; x.par != nil; x = x.par {
+			p = append([]string{x.name}, p...)
+		}
+		return p
+	}
+	var buf strings.Builder
+	cli.VerifSetStdErr(&buf)
+	app := cli.App("app", "")
+	app.ErrorHandling = flag.ContinueOnError
+	var decl func(c *cli.Cmd, n *dn)
+	decl = func(c *cli.Cmd, n *dn) {
+		c.Action = func() {}
+		for _, k := range n.kids {
+			k := k
+			c.Command(k.name, "", func(sc *cli.Cmd) { decl(sc, k) })
+		}
+	}
+	decl(app.Cmd, root)
+	t1, t2 := all[r.Intn(len(all))], all[r.Intn(len(all))]
+	c.Journal(map[string]interface{}{"deep_bare_tree_levels": 5, "first_help": path(t1), "second_help_on_the_same_object": path(t2)})
+	for i, t := range []*dn{t1, t2} {
+		buf.Reset()
+		var pan interface{}
+		func() {
+			defer func() { pan = recover() }()
+			app.Run(append(append([]string{"app"}, path(t)...), "--help"))
+		}()
+		c.Eval()
+		if pan != nil {
+			c.Violation(fmt.Sprintf("help request %d panicked: %v", i+1, pan), nil, nil)
+			return
+		}
+		want := "Usage: " + strings.Join(append([]string{"app"}, path(t)...), " ")
+		got := usageLine(buf.String())
+		if got != want && !strings.HasPrefix(got, want+" ") {
+			c.Violation(fmt.Sprintf("help request %d on the same application object: usage line %q, expected the path %q", i+1, got, want), nil, nil)
+			return
+		}
+		c.Inc(fmt.Sprintf("deep_usage_path_depth_%d", len(path(t))))
+	}
+	c.Nontrivial("deep", strings.Join(path(t1), " "), strings.Join(path(t2), " "), fmt.Sprint(len(all)))
+}
+
 func runC17(c *core.Ctx) {
+	if c.Index%8 == 7 {
+		c17Deep(c)
+		return
+	}
 	r := c.R
 	version := r.Intn(3) == 0
 	root := genHelpNode(r, "app", 2, nil, version)
@@ -391,6 +462,11 @@ func runC17(c *core.Ctx) {
 	c.Journal(desc)
 	os.Setenv("E_SET", "7")
 	defer os.Unsetenv("E_SET")
+	if r.Intn(5) == 0 {
+		// terminal-related variables are none of the library's business
+		os.Setenv("COLUMNS", []string{"0", "10", "-1", "18", "80", "abc", ""}[r.Intn(7)])
+		defer os.Unsetenv("COLUMNS")
+	}
 	var buf strings.Builder
 	cli.VerifSetStdErr(&buf)
 	app := cli.App("app", root.desc)
